@@ -40,7 +40,10 @@ def bclass(b):
                 fail = "fail@%d" % (depth - d + 1)      # 1 = topmost element
             verdicts.append("d%d:%s" % (depth, fail))
     tw = sorted({("tw" if l["tw"] != "none" else "plain") for l in link.values()})
-    return "%s|%s|%s|%s" % (b["phase"], "+".join(corr) or "none", ",".join(verdicts) or "-", "/".join(tw) or "-")
+    shapes = sorted("%s:%s" % (sh, n if n == "device" else "other")
+                    for n, sh in _dict(b.get("shape")).items() if sh != "canon")
+    return "%s|%s|%s|%s|%s" % (b["phase"], "+".join(corr) or "none", ",".join(verdicts) or "-", "/".join(tw) or "-",
+                               "+".join(shapes) or "canon")
 
 
 def tsig(clause, t):
@@ -84,6 +87,10 @@ def run(ctx):
         "value of a valid target = the part of its signed message that the format defines as its value "
         "(device: last 65 bytes, attestation: all but the first byte, ui / signer: the whole message); the "
         "expected bytes come from the builder's structured input, not from repository code",
+        "an element certifies with the key that its WHOLE value is (33-byte compressed or 65-byte point); a "
+        "value that merely contains a key (over-long with the key at the tail or head, truncated, padded) is "
+        "not a key: whatever such an element 'certifies' is refused, although it is itself valid and reports "
+        "its whole value; message shapes longHead / short / sliced are one abstract class and are all run",
         "the reported tweak (3rd component) is not part of the property text: a mismatch is counted as "
         "tweak_report_drift, not as a violation",
         "elements and links that the model's program never reads are filled with seeded random content "
@@ -94,10 +101,13 @@ def run(ctx):
     ]
     nproc = ctx.pick(4, 8)
     # 1. design checks -----------------------------------------------------------------------
-    runs = ctx.pick([("MC_CertChain.cfg", "MC_CertChain: 1 target, <=1 corruption, all kinds"),
-                     ("MC_CertChain2.cfg", "MC_CertChain2: <=2 targets, <=1 corruption, reduced kinds")],
-                    [("MC_CertChain.cfg", "MC_CertChain: 1 target, <=1 corruption, all kinds"),
-                     ("MCT_CertChain.cfg", "MCT_CertChain: <=2 targets, <=2 corruptions, all kinds")])
+    # quick: the 1-target configuration is checked (same constants, all invariants) by the generation run
+    runs = ctx.pick([("MC_CertChain2.cfg", "MC_CertChain2: <=2 targets, <=1 corruption (reduced kinds), <=1 over-long message")],
+                    [("MC_CertChain.cfg", "MC_CertChain: 1 target, <=1 corruption (all kinds), <=1 certifier with a shaped message"),
+                     ("MC_CertChain2.cfg", "MC_CertChain2: <=2 targets, <=1 corruption (reduced kinds), <=1 over-long message"),
+                     ("MCS_CertChain.cfg", "MCS_CertChain: 1 target, <=1 corruption, <=2 shaped messages (5 shapes), also on the "
+                                           "corrupted element"),
+                     ("MCT_CertChain.cfg", "MCT_CertChain: <=2 targets, <=2 corruptions, all kinds, canonical messages")])
     counts = {}
     for cfg, label in runs:
         r = tlc.check("CertChain", cfg, coverage=True, workers=ctx.pick(4, 8))
@@ -116,16 +126,19 @@ def run(ctx):
         raise core.MachineryError("CertChain: termination / step bound violated: %s" % rl.violated)
     res.add_tlc(rl, "Live_CertChain: Terminates under WF, no state constraint")
     negs = []
-    for cfg, inv in (("Neg_CertChain.cfg", "NeverValid"), ("Neg2_CertChain.cfg", "NeverInvalidBelowTop")):
+    for cfg, inv in (("Neg_CertChain.cfg", "NeverValid"), ("Neg2_CertChain.cfg", "NeverInvalidBelowTop"),
+                     ("Neg3_CertChain.cfg", "NeverRefusedForShape")):
         rn = tlc.run("CertChain", cfg, workers=2)
         if inv not in rn.violated:
             raise core.MachineryError("vacuity guard: %s is not violated by the model" % inv)
         negs.append(inv)
     res.coverage["negative_configs_violated"] = negs
     # 2. all behaviours of the model ---------------------------------------------------------
-    gens = ctx.pick([("Gen_CertChain.cfg", "Gen_CertChain (1 target, <=1 corruption)")],
-                    [("Gen_CertChain.cfg", "Gen_CertChain (1 target, <=1 corruption)"),
-                     ("GenT_CertChain.cfg", "GenT_CertChain (<=2 targets, <=2 corruptions, reduced kinds)")])
+    gens = ctx.pick([("Gen_CertChain.cfg", "Gen_CertChain = MC_CertChain (1 target, <=1 corruption of all kinds, <=1 shaped "
+                                           "message; all invariants + Stable)")],
+                    [("Gen_CertChain.cfg", "Gen_CertChain (1 target, <=1 corruption, <=1 shaped message)"),
+                     ("GenS_CertChain.cfg", "GenS_CertChain (1 target, <=1 corruption, 5 shapes, also on the corrupted element)"),
+                     ("GenT_CertChain.cfg", "GenT_CertChain (<=2 targets, <=2 corruptions, reduced kinds, canonical)")])
     behaviours = []
     for cfg, label in gens:
         bs, rg = tlc.generate("GenCertChain", cfg)
@@ -142,8 +155,16 @@ def run(ctx):
     missing_kinds = [k for k in KINDS if k not in kinds_seen]
     if missing_kinds:
         raise core.MachineryError("vacuity: corruption kinds never generated: %s" % missing_kinds)
+    shapes_seen = set()
+    for c in classes:
+        shapes_seen.update(x for x in c.split("|")[4].split("+") if x != "canon")
+    need = ["%s:%s" % (sh, who) for sh in ("longTail", "longHead") for who in ("device", "other")]
+    missing_shapes = [x for x in need if x not in shapes_seen]
+    if missing_shapes:
+        raise core.MachineryError("vacuity: message shapes never generated on a certifier: %s" % missing_shapes)
+    res.coverage["message_shape_classes_generated"] = sorted(shapes_seen)
     # quick: every class at least once + a seeded sample; thorough: everything
-    budget = ctx.pick(1600, 120000)
+    budget = ctx.pick(1300, 120000)
     chosen = []
     for c in sorted(classes):
         chosen.append(ctx.rng.choice(classes[c]))
@@ -162,7 +183,7 @@ def run(ctx):
     res.coverage["behaviours_replayed"] = len(chosen)
     res.coverage["certificates_from_behaviours"] = n_model
     # 3. binding B: random certificates, byte sweep ----------------------------------------------
-    n_rand = ctx.pick(800, 30000)
+    n_rand = ctx.pick(600, 30000)
     plans += [certchain.random_plan(ctx.rng) for _ in range(n_rand)]
     sweep = certchain.sweep_plans(ctx.rng, ctx.pick(1, 8))
     if ctx.quick:
